@@ -672,6 +672,7 @@ def check_compose_kinds(ctx):
 
 
 def check(ctx):
+    ctx.instances_floor("C14-e/isinstance", K.check_isinstance_dispatch(ctx, "C14-e", ["lena.flow.functions", "lena.variables.variable", "lena.context.functions", "lena.context.context"], "lena.context.Context, OrderedDict as a context; a subclass of Variable"), 10, "isinstance tests in the value and variable helpers")
     check_compose_kinds(ctx)
     check_closures_and_guard(ctx)
     check_value_split(ctx)
